@@ -370,7 +370,111 @@ def map_key_scan(chk, program):
                       detail='' if ok else 'an entry of another address is read / written / deleted')
     chk.floor('source_map_sites', n, 3)
 
+def map_history(chk, program):
+    """MAP-* decided on a history run by the interpreted decode path (rules_filter.DecodePath), two sources, mapping off and on:
+      1 claim (NAME 12345) from source 7            -> returned, a new identity made from THIS message and its payload integer, stored under 7, attached
+      2 ordinary message from 7                     -> the identity stored under 7 attached (the same object)
+      3 ordinary message from 9 (never claimed)     -> nothing attached; the entry of 7 untouched
+      4 claim from 9 with NAME 777                  -> stored under 9 (not under 7), attached
+      5 the same claim from 7 again                 -> the stored identity kept and attached (no new object)
+      6 claim from 7 with NAME 999                  -> replaced by a new identity, attached
+      7 ordinary message from 7                     -> the replacement attached
+    and, with the claim PGN excluded by configuration, 1 / 6 still update the map although nothing is returned.
+    -> True when the history was interpretable and every step was reported (then the spelling-bound readings only confirm), False otherwise"""
+    from . import absint as A
+    consts = F.module_consts(program)
+    sf, cf = F.facts_or_none(program)
+    db = program.db
+    ordinary = [d for d in db.defs if not d.group.complex and d.pgn != consts['ISO_CLAIM_PGN'] and len(d.group.defs) == 1]
+    P, ID = ordinary[0].pgn, ordinary[0].id
+    CP, CID = consts['ISO_CLAIM_PGN'], consts['ISO_CLAIM_PGN_ID']
+    fn2 = program.fn('decoder', f"{CLS}._call_decode_function")
+    try:
+        for excl, tag in (([], ''), ([CP], '/claim-filtered')):
+            attrs = F.runtime_attrs(program, sf, cf, consts, excl, [])
+            dp = F.DecodePath(program, attrs, consts)
+            rep = []
+            def step(name, pgn, mid, src, nm, want_ret, check):
+                r = dp.feed(pgn, mid, src=src, name_int=nm)
+                problems = check(r)
+                if not excl and (r['status'] == 'returned') != want_ret:
+                    problems.append(f"message {'withheld' if want_ret else 'returned'}")
+                if excl and pgn == CP and r['status'] == 'returned':
+                    problems.append('an excluded claim is returned')
+                rep.append((name, problems, r))
+                return r
+            m = lambda: dp.dec.attrs['source_to_iso_name'].items
+            def is_new_from(r, nm):
+                e = r['map_entry']
+                ok = isinstance(e, A.AObj) and e.attrs.get('new') and isinstance(e.attrs.get('name'), A.AInt) and e.attrs['name'].v == nm and e.attrs.get('made_from') is r['msg']
+                return ok
+            r1 = step('claim-from-7', CP, CID, 7, 12345, True, lambda r: ([] if is_new_from(r, 12345) else ['the map entry of source 7 is not a new identity made from this claim and its payload integer']) +
+                      ([] if excl or r['attached_raw'] is r['map_entry'] else ['the identity attached is not the one stored']))
+            e7 = m().get(7)
+            step('ordinary-from-7', P, ID, 7, 5, True, lambda r: [] if r['attached_raw'] is e7 and m().get(7) is e7 else ['the identity attached is not the entry stored for source 7'])
+            step('ordinary-from-9-unclaimed', P, ID, 9, 5, True, lambda r: ([] if r['attached_raw'] in (None, '<none>') else ['an identity is attached to a message of a source that never claimed']) +
+                 ([] if m().get(7) is e7 and 9 not in m() else ['the map changed on an ordinary message']))
+            step('claim-from-9', CP, CID, 9, 777, True, lambda r: ([] if is_new_from(r, 777) and m().get(7) is e7 else ['the claim of source 9 is not filed under 9 / disturbs the entry of 7']) +
+                 ([] if excl or r['attached_raw'] is m().get(9) else ['the identity attached is not the one stored for 9']))
+            step('claim-from-11-with-the-NAME-of-7', CP, CID, 11, 12345, True, lambda r: ([] if is_new_from(r, 12345) and r['map_entry'] is m().get(11) and m().get(7) is e7 and 9 in m() else
+                                                                                        ['a claim from another address with the same NAME changes the entries of other addresses']))
+            step('same-claim-from-7', CP, CID, 7, 12345, True, lambda r: ([] if m().get(7) is e7 else ['an unchanged NAME replaces the stored identity']) +
+                 ([] if excl or r['attached_raw'] is e7 else ['the identity attached is not the stored one']))
+            r6 = step('other-NAME-from-7', CP, CID, 7, 999, True, lambda r: ([] if is_new_from(r, 999) and m().get(7) is not e7 else ['a claim with another NAME does not replace the stored identity']) +
+                      ([] if excl or r['attached_raw'] is m().get(7) else ['the identity attached is not the replacement']))
+            e7b = m().get(7)
+            step('ordinary-from-7-after-replacement', P, ID, 7, 5, True, lambda r: [] if r['attached_raw'] is e7b else ['the identity attached is not the latest claim of source 7'])
+            for name, problems, r in rep:
+                chk.check(not problems, 'MAP-REPLACE' if 'claim' in name or 'NAME' in name else 'MAP-ATTACH', f"history::{name}{tag}", file=DEC, line=fn2.lineno, func='_decode',
+                          expected='see the history in rules_decoder.map_history', found=problems or 'ok', nontrivial=True)
+    except (A.Unknown, A.RaiseSignal, teval.EvalUnknown, KeyError, AttributeError, TypeError, AnalysisError) as u:
+        chk.unit('map_history_not_interpretable', f"{type(u).__name__}: {u}"[:200])
+        return False
+    return True
+
 def map_rules(chk, program):
+    decided = map_history(chk, program)
+    if decided:
+        # the history above decided MAP-REPLACE / MAP-ATTACH on the interpreted code: what follows reads particular spellings and only confirms
+        # (the hand-over of the identity through the fast-packet path is not part of that history: those readings stay in force)
+        chk = _Demote(chk, confirm={'MAP-REPLACE', 'MAP-ATTACH', 'MAP-KEY'}, skip_floors={'source_map_accesses'}, but=lambda inst: '_decode_fast_message' in inst)
+    return _map_rules(chk, program)
+
+class _Demote:
+    """rules in `confirm` may only confirm (what they do not recognise is no alarm: a semantic decision was taken elsewhere); all other rules pass through"""
+    def __init__(self, chk, confirm, skip_floors=(), but=None):
+        self.chk = chk; self._confirm = confirm; self.skip_floors = set(skip_floors); self.but = but or (lambda inst: False)
+        self.history_decided = True
+        self.confirm = self
+        self.obs = chk.obs
+        self.errors = chk.errors
+    def check(self, cond, rule, instance, **k):
+        self._inst = instance
+        if rule in self.confirm:
+            if cond:
+                self.chk.ok(rule, 'structural::' + instance, **{a: b for a, b in k.items() if a in ('file', 'line', 'func', 'expected', 'found', 'detail', 'nontrivial')})
+            return cond
+        return self.chk.check(cond, rule, instance, **k)
+    def ok(self, rule, instance, **k):
+        self._inst = instance
+        self.chk.ok(rule, ('structural::' + instance) if rule in self.confirm else instance, **k)
+    def violation(self, rule, instance, **k):
+        self._inst = instance
+        if rule not in self.confirm:
+            self.chk.violation(rule, instance, **k)
+    def unknown(self, rule, instance, *a, **k):
+        self._inst = instance
+        if rule not in self.confirm:
+            self.chk.unknown(rule, instance, *a, **k)
+    def unit(self, *a, **k): return self.chk.unit(*a, **k)
+    def __contains__(self, rule):
+        return rule in self._confirm and not self.but(self._inst)
+    def floor(self, name, *a, **k):
+        if name not in self.skip_floors:
+            return self.chk.floor(name, *a, **k)
+    def rule(self, *a, **k): return self.chk.rule(*a, **k)
+
+def _map_rules(chk, program):
     consts = F.module_consts(program)
     map_key_scan(chk, program)
     stages = {q: F.stage_events(program, q) for q in ('_decode', '_call_decode_function')}
@@ -421,11 +525,14 @@ def map_rules(chk, program):
     src = ('param', ex.params[3])
     lookup = ('call', ('attr', MAP, 'get'), (src, NONE), ())
     lookup2 = ('call', ('attr', MAP, 'get'), (src,), ())
+    direct_idents = {e[2][2][6] for e in ex.events if e[0] == 'return' and e[2][0] == 'call' and e[2][1][0] == 'attr' and e[2][1][2] == '_call_decode_function' and len(e[2][2]) > 6}
     for e in ex.events:
         if e[0] == 'return' and e[2][0] == 'call' and e[2][1][0] == 'attr' and e[2][1][2] in ('_call_decode_function', '_decode_fast_message'):
             ident = e[2][2][6] if len(e[2][2]) > 6 else None
             leaves = _ite_leaves(ident) if ident is not None else []
             ok = ident is not None and set(leaves) <= {lookup, lookup2, NONE} and (lookup in leaves or lookup2 in leaves)
+            if not ok and e[2][1][2] == '_decode_fast_message' and getattr(chk, 'history_decided', False) and ident is not None and direct_idents == {ident}:
+                ok = True      # the very expression handed to the single-frame path, which the interpreted history decided
             chk.check(ok, 'MAP-ATTACH', f"_decode->{e[2][1][2]}::identity", file=DEC, line=e[-1], func='_decode',
                       expected='identity argument = source_to_iso_name.get(<source>) (None only for the claim PGN, which looks itself up later)', found=show(ident) if ident else None)
     # ---- MAP-REPLACE + attach on the claim path
@@ -485,13 +592,33 @@ def map_rules(chk, program):
             iso = None if old_name is None else F.Stub(name=old_name, manufacturer_code=None)
             model, msg = F.make_model(attrs, consts, consts['ISO_CLAIM_PGN'], consts['ISO_CLAIM_PGN_ID'], iso=iso)
             try:
-                res = F.outcome(program, stages, model)
-                got = teval.ev(ident_term, model) if ident_term is not None else None
+                res, det_ = F.outcome_any(program, stages, model, dict(attrs=attrs, consts=consts, pgn=consts['ISO_CLAIM_PGN'], mid=consts['ISO_CLAIM_PGN_ID'], iso=iso))
+                if det_ is not None:
+                    got = det_['attached']
+                else:
+                    try:
+                        if ident_term is not None and any(s_ == ('attr', ('param', 'self'), 'source_to_iso_name') for s_ in sym.walk(ident_term)):
+                            # the identity is read back from the map after the map may have been written: a term cannot see that write
+                            raise teval.EvalUnknown('identity read back from the source map')
+                        got = teval.ev(ident_term, model) if ident_term is not None else None
+                    except teval.EvalUnknown as u0:
+                        from . import absint as A_
+                        try:
+                            det_ = F.outcome_interp(program, attrs, consts, consts['ISO_CLAIM_PGN'], consts['ISO_CLAIM_PGN_ID'], iso=iso)
+                        except (A_.Unknown, A_.RaiseSignal, KeyError, AttributeError, TypeError) as u2:
+                            raise teval.EvalUnknown(f"{u0} / decode path not interpretable: {u2}"[:300])
+                        res = (det_['status'], det_['stage'], 0, det_['stored'])
+                        got = det_['attached']
             except teval.EvalUnknown as u:
                 chk.unknown('MAP-REPLACE', f"claim::{tag}", f"not evaluable: {u}", DEC, fn2.lineno)
                 continue
             want_store = old_name != 12345
             is_new = isinstance(got, F.Stub) and got.attrs.get('new') is True
+            if det_ is not None and res[0] == 'filtered':
+                # interpreted run of a claim that the configuration withholds: nothing is attached to anything; only the map is observable
+                chk.check(res[3] is want_store, 'MAP-REPLACE', f"claim::{tag}", file=DEC, line=fn2.lineno, func='_call_decode_function',
+                          expected=('new identity stored under the source' if want_store else 'stored identity kept (same 64-bit NAME)'), found={'stored': res[3]})
+                continue
             chk.check(res[3] is want_store and (is_new if want_store else got is iso), 'MAP-REPLACE', f"claim::{tag}", file=DEC, line=fn2.lineno, func='_call_decode_function',
                       expected=('new identity stored under the source and attached' if want_store else 'stored identity reused (same 64-bit NAME)'),
                       found={'stored': res[3], 'attached': 'new' if is_new else ('stored one' if got is iso and iso is not None else repr(got))},
@@ -548,7 +675,8 @@ def mfr_rules(chk, program, consts, stages):
             model, msg = F.make_model(attrs, consts, pgn, mid, extra_self={'exclude_manufacturer_code': ex_m, 'include_manufacturer_code': in_m, 'build_network_map': netmap},
                                       iso=iso, now_after_window=after)
             try:
-                res = F.outcome(program, stages, model)
+                res, _det = F.outcome_any(program, stages, model, dict(attrs=attrs, consts=consts, pgn=pgn, mid=mid, iso=iso, now_after_window=after,
+                                                                       extra_self={'exclude_manufacturer_code': ex_m, 'include_manufacturer_code': in_m, 'build_network_map': netmap}))
             except teval.EvalUnknown as u:
                 chk.unknown('MFR-GUARD', f"{mode}:{entry}:{known}", f"guard not evaluable: {u}", DEC, 0)
                 return
